@@ -67,6 +67,12 @@ def plan(tier, seed):
             for b in ("numpy", "jax", "c"):
                 specs.append({"klass": "keyword_and_keyword_with_suffix", "i": k, "ident": n, "role": role, "variant": "suffix_pair", "backend": b})
                 k += 1
+    for n in ["_values_5", "_values_9", "_values_12", "_values_2", "values_5"]:
+        for role in ROLES:
+            for b in ("jax", "numpy"):
+                # few states, many monitored values: collector indices beyond the number of states
+                specs.append({"klass": "many_monitors", "i": k, "ident": n, "role": role, "variant": "wide_monitor", "backend": b})
+                k += 1
     for n in SUBMODEL_IDENTS:
         for b in ("numpy", "jax", "c"):
             specs.append({"klass": "missing_variable_of_sub_model", "i": k, "ident": n, "role": "missing_variable", "backend": b})
@@ -173,6 +179,10 @@ def model_text(n, role, variant=None, partner=None):
     if variant == "unused":
         # nothing depends on the state, not even its own derivative
         return (f"parameters(p0=0.5, pp=1.5)\nstates(s0=0.75, {Sx}=1.25)\n\nii = s0 * p0 + t\nds0_dt = -s0 * pp + ii + time * 0.125\nd{Sx}_dt = s0 * 0.5 - pp * 0.0625\n")
+    if variant == "wide_monitor":
+        ms = [f"m{j}" for j in range(12)]
+        return (f"parameters(p0=0.5, {P}=1.5)\nstates(s0=0.75, {Sx}=1.25)\n\n" + "".join(f"{m} = s0 * {0.125 * (j + 1)} + {Sx} * 0.25 + {P} * {0.0625 * j}\n" for j, m in enumerate(ms))
+                + f"{I} = s0 * p0 + t + {Sx} * 0.25 + m3\nzlast = {I} * 2 + {P} + {Sx} + m11\nds0_dt = -s0 * {P} + {I} + time * 0.125 + zlast\nd{Sx}_dt = {Sx} * -0.5 + s0 - {P} * 0.0625 + {I} * 0.03125 + m7\n")
     if variant == "wide":
         # enough states / monitored values for two-digit collector indices
         ws = [f"w{j}" for j in range(12)]
